@@ -51,48 +51,56 @@ func allocSize(addr uintptr, cap_ int) int64 {
 
 //@ func (rl *ResourceLimiter) AddSize
 //@   props C12
-//@   ints bv
+//@   ints both
+//@   nooverflow
 //@   modifies rl.Size, rl.MaxSize
 //@   ensures rl.Size == old(rl.Size)+int64(size)
 
 //@ func (rl *ResourceLimiter) SubSize
 //@   props C12
-//@   ints bv
+//@   ints both
+//@   nooverflow
 //@   modifies rl.Size
 //@   ensures rl.Size == old(rl.Size)-int64(size)
 
 //@ func (rl *ResourceLimiter) AddCount
 //@   props C12
-//@   ints bv
+//@   ints both
+//@   nooverflow
 //@   modifies rl.Count, rl.MaxCount
 //@   ensures rl.Count == old(rl.Count)+int64(count)
 
 //@ func (rl *ResourceLimiter) SubCount
 //@   props C12
-//@   ints bv
+//@   ints both
+//@   nooverflow
 //@   modifies rl.Count
 //@   ensures rl.Count == old(rl.Count)-int64(count)
 
 //@ func (rl *ResourceLimiter) AddSizeAndCount
 //@   props C12
-//@   ints bv
+//@   ints both
+//@   nooverflow
 //@   modifies rl.Size, rl.MaxSize, rl.Count, rl.MaxCount
 //@   ensures rl.Size == old(rl.Size)+int64(size) && rl.Count == old(rl.Count)+1
 
 //@ func (rl *ResourceLimiter) SubSizeAndCount
 //@   props C12
-//@   ints bv
+//@   ints both
+//@   nooverflow
 //@   modifies rl.Size, rl.Count
 //@   ensures rl.Size == old(rl.Size)-int64(size) && rl.Count == old(rl.Count)-1
 
 //@ func (rl *ResourceLimiter) IsZero
 //@   props C12
-//@   ints bv
+//@   ints both
+//@   nooverflow
 //@   ensures result0 == (rl.Count == 0 && rl.Size == 0)
 
 //@ func (arr *CArray) Alloc
 //@   props C12 C10
-//@   ints bv
+//@   ints both
+//@   nooverflow
 //@   assumed C.malloc and the unsafe slice-header construction: returns false or a fresh block of exactly size bytes
 //@   requires size >= 0
 //@   modifies arr.Body, arr.Addr, arr.Cap, AllocRL.Size, AllocRL.MaxSize, AllocRL.Count, AllocRL.MaxCount
@@ -102,7 +110,8 @@ func allocSize(addr uintptr, cap_ int) int64 {
 
 //@ func (arr *CArray) Free
 //@   props C12 C10
-//@   ints bv
+//@   ints both
+//@   nooverflow
 //@   modifies arr.Body, arr.Addr, arr.Cap, AllocRL.Size, AllocRL.Count
 //@   ensures AllocRL.Count == old(AllocRL.Count)-allocCount(old(arr.Addr)) && AllocRL.Size == old(AllocRL.Size)-allocSize(old(arr.Addr), old(arr.Cap))
 //@   ensures old(arr.Addr) != 0 ==> arr.Addr == 0 && arr.Cap == 0 && arr.Body == nil
@@ -110,13 +119,15 @@ func allocSize(addr uintptr, cap_ int) int64 {
 
 //@ func (arr *CArray) Clear
 //@   props C12
-//@   ints bv
+//@   ints both
+//@   nooverflow
 //@   modifies arr.Body, arr.Addr
 //@   ensures arr.Addr == 0 && arr.Body == nil
 
 //@ func (arr *CArray) Copy
 //@   props C12 C01
-//@   ints bv
+//@   ints both
+//@   nooverflow
 //@   modifies AllocRL.Size, AllocRL.MaxSize, AllocRL.Count, AllocRL.MaxCount
 //@   ensures ok ==> len(arrNew.Body) == len(arr.Body)
 //@   ensures ok && arr.Addr == 0 ==> arrNew.Addr == 0 && arrNew.Cap == 0
